@@ -9,41 +9,47 @@ Local Open Scope string_scope.
 Local Open Scope list_scope.
 
 (* ------------------------------------------------------------------ columns: no temporary survives, none is lost *)
-Lemma fold_extend_names wd pb (ops : list (string * expr)) temps acc temps' produced :
-  fold_left (extend_fold_step wd pb) ops (Ok (temps, acc)) = Ok (temps', produced) ->
-  map fst produced = map fst acc ++ map fst ops /\ (temps = [] -> wd = false -> temps' = []) /\ (temps <> [] -> temps' <> []).
-Proof.
-  revert temps acc. induction ops as [|ke t IH]; intros temps acc H; cbn [fold_left] in H.
-  - inversion H; subst. rewrite app_nil_r. auto.
-  - destruct (extend_fold_step wd pb (Ok (temps, acc)) ke) as [[tm pr]| |] eqn:E.
-    + destruct (IH _ _ H) as [A [B C]].
-      unfold extend_fold_step in E. cbn [rbind] in E.
-      destruct (if wd then _ else _) as [tm0 opk] eqn:E0 in E. apply rbind_ok in E. destruct E as [x [_ E]]. inversion E; subst tm pr; clear E.
-      split; [|split].
-      * rewrite A, map_app. cbn [map fst]. rewrite <- app_assoc. reflexivity.
-      * intros -> ->. inversion E0; subst. auto.
-      * intros N. apply C. destruct wd; [|inversion E0; subst; exact N].
-        destruct (promote _ _ _) as [[[nm v] e']|] in E0; inversion E0; subst; [|exact N]. destruct temps; discriminate.
-    + exfalso. clear -H. induction t as [|k t IHt]; cbn [fold_left] in H; [discriminate|]. apply IHt. exact H.
-    + exfalso. clear -H. induction t as [|k t IHt]; cbn [fold_left] in H; [discriminate|]. apply IHt. exact H.
-Qed.
+Lemma fold_failed_ext one wd pb (l : list (string * expr)) st : st = Raise \/ st = Unmodelled ->
+  forall r, fold_left (extend_fold_step one wd pb) l st <> Ok r.
+Proof. revert st. induction l as [|k t IH]; intros st [->| ->] r; cbn [fold_left]; try discriminate; apply IH; auto. Qed.
+Lemma fold_failed_prj one (l : list (string * expr)) st : st = Raise \/ st = Unmodelled ->
+  forall r, fold_left (project_fold_step one) l st <> Ok r.
+Proof. revert st. induction l as [|k t IH]; intros st [->| ->] r; cbn [fold_left]; try discriminate; apply IH; auto. Qed.
 
-Lemma fold_project_names (ops : list (string * expr)) temps acc temps' produced :
-  fold_left project_fold_step ops (Ok (temps, acc)) = Ok (temps', produced) ->
+Lemma fold_extend_names one wd pb (ops : list (string * expr)) temps acc names temps' produced names' :
+  fold_left (extend_fold_step one wd pb) ops (Ok (temps, acc, names)) = Ok (temps', produced, names') ->
   map fst produced = map fst acc ++ map fst ops /\ (temps <> [] -> temps' <> []).
 Proof.
-  revert temps acc. induction ops as [|ke t IH]; intros temps acc H; cbn [fold_left] in H.
+  revert temps acc names. induction ops as [|ke t IH]; intros temps acc names H; cbn [fold_left] in H.
   - inversion H; subst. rewrite app_nil_r. auto.
-  - destruct (project_fold_step (Ok (temps, acc)) ke) as [[tm pr]| |] eqn:E.
-    + destruct (IH _ _ H) as [A C].
-      unfold project_fold_step in E. cbn [rbind] in E.
-      destruct (match promote _ _ _ with Some _ => _ | None => _ end) as [tm0 opk] eqn:E0 in E.
-      apply rbind_ok in E. destruct E as [x [_ E]]. inversion E; subst tm pr; clear E.
+  - destruct (extend_fold_step one wd pb (Ok (temps, acc, names)) ke) as [[[tm pr] nm]| |] eqn:E.
+    + destruct (IH _ _ _ H) as [A C].
+      unfold extend_fold_step in E. cbn [rbind] in E.
+      destruct (if wd then _ else _) as [[tm0 opk] nm0] eqn:E0 in E. apply rbind_ok in E. destruct E as [x [_ E]]. inversion E; subst tm pr nm; clear E.
       split.
       * rewrite A, map_app. cbn [map fst]. rewrite <- app_assoc. reflexivity.
-      * intros N. apply C. destruct (promote _ _ _) as [[[nm v] e']|] in E0; inversion E0; subst; [|exact N]. destruct temps; discriminate.
-    + exfalso. clear -H. induction t as [|k t IHt]; cbn [fold_left] in H; [discriminate|]. apply IHt. exact H.
-    + exfalso. clear -H. induction t as [|k t IHt]; cbn [fold_left] in H; [discriminate|]. apply IHt. exact H.
+      * intros N. apply C. destruct wd; [|inversion E0; subst; exact N].
+        destruct (promote _ _ _ _) as [[[nm1 v] e']|] in E0; inversion E0; subst; [|exact N]. destruct temps; discriminate.
+    + exfalso. exact (fold_failed_ext one wd pb t Raise (or_introl eq_refl) _ H).
+    + exfalso. exact (fold_failed_ext one wd pb t Unmodelled (or_intror eq_refl) _ H).
+Qed.
+
+Lemma fold_project_names one (ops : list (string * expr)) temps acc names temps' produced names' :
+  fold_left (project_fold_step one) ops (Ok (temps, acc, names)) = Ok (temps', produced, names') ->
+  map fst produced = map fst acc ++ map fst ops /\ (temps <> [] -> temps' <> []).
+Proof.
+  revert temps acc names. induction ops as [|ke t IH]; intros temps acc names H; cbn [fold_left] in H.
+  - inversion H; subst. rewrite app_nil_r. auto.
+  - destruct (project_fold_step one (Ok (temps, acc, names)) ke) as [[[tm pr] nm]| |] eqn:E.
+    + destruct (IH _ _ _ H) as [A C].
+      unfold project_fold_step in E. cbn [rbind] in E.
+      destruct (match promote _ _ _ _ with Some _ => _ | None => _ end) as [[tm0 opk] nm0] eqn:E0 in E.
+      apply rbind_ok in E. destruct E as [x [_ E]]. inversion E; subst tm pr nm; clear E.
+      split.
+      * rewrite A, map_app. cbn [map fst]. rewrite <- app_assoc. reflexivity.
+      * intros N. apply C. destruct (promote _ _ _ _) as [[[nm1 v] e']|] in E0; inversion E0; subst; [|exact N]. destruct temps; discriminate.
+    + exfalso. exact (fold_failed_prj one t Raise (or_introl eq_refl) _ H).
+    + exfalso. exact (fold_failed_prj one t Unmodelled (or_intror eq_refl) _ H).
 Qed.
 
 Lemma select_if_cols {A} (temps : list A) declared t t2 : select_if temps declared t = Ok t2 ->
@@ -63,15 +69,15 @@ Proof.
   - destruct (dict_get env n); [|discriminate]. apply pl_select_ok in H. destruct H as [-> _]. reflexivity.
   - (* extend *)
     apply rbind_ok in H. destruct H as [t0 [H0 H]]. specialize (IHp _ _ H0). cbn [column_names].
-    unfold pl_extend_step in H. apply rbind_ok in H. destruct H as [[temps produced] [Hf H]].
-    destruct (fold_extend_names _ _ _ _ _ _ _ Hf) as [MF [_ NE]]. cbn [map app] in MF.
+    unfold pl_extend_step in H. apply rbind_ok in H. destruct H as [[[temps produced] nms] [Hf H]].
+    destruct (fold_extend_names _ _ _ _ _ _ _ _ _ _ Hf) as [MF NE]. cbn [map app] in MF.
     apply select_if_cols in H. destruct H as [[-> ->]|[_ C]]; [|exact C].
     rewrite cols_with_columns, MF. cbn [with_columns_if].
     destruct (w_order w); cbn [pl_sort cols]; rewrite IHp; reflexivity.
   - (* project *)
     apply rbind_ok in H. destruct H as [t0 [H0 H]]. cbn [column_names].
-    unfold pl_project_step in H. apply rbind_ok in H. destruct H as [[temps produced] [Hf H]].
-    destruct (fold_project_names _ _ _ _ _ Hf) as [MF NE]. cbn [map app] in MF.
+    unfold pl_project_step in H. apply rbind_ok in H. destruct H as [[[temps produced] nms] [Hf H]].
+    destruct (fold_project_names _ _ _ _ _ _ _ _ Hf) as [MF NE]. cbn [map app] in MF.
     apply rbind_ok in H. destruct H as [r2 [H2 H]]. apply rbind_ok in H. destruct H as [r3 [H3 H]].
     assert (cols r3 = gb ++ map fst ops) as C3.
     { apply select_if_cols in H3. destruct H3 as [[-> ->]|[_ C]]; [|exact C].
